@@ -10,7 +10,9 @@ import (
 	"encoding/json"
 	"fmt"
 	"math"
+	"net"
 	"os"
+	"sync"
 	"time"
 )
 
@@ -187,12 +189,103 @@ func verifSnapshotDir(dir string) string {
 func verifOr(a, b bool) bool  { return a || b }
 func verifAnd(a, b bool) bool { return a && b }
 
-// ---- TCP endpoint model (native twins: not implemented; harnesses using them are engine-only)
-func verifEndpointUp(up bool)            {}
-func verifNumConns() int                 { return 0 }
-func verifEndpointLog(k int) []byte      { return nil }
-func verifEndpointClose(k int)           {}
-func verifEndpointStall(k int, on bool)  {}
+// ---- TCP endpoint model, native twin: a real loopback listener whose accepted connections are logged
+type verifNatConn struct {
+	c   net.Conn
+	mu  sync.Mutex
+	log []byte
+}
+
+var verifEP struct {
+	mu    sync.Mutex
+	addr  string
+	ln    net.Listener
+	conns []*verifNatConn
+}
+
+// verifEndpointAddr: the address destinations should dial (a reserved loopback port natively).
+func verifEndpointAddr() string {
+	verifEP.mu.Lock()
+	defer verifEP.mu.Unlock()
+	if verifEP.addr == "" {
+		ln, err := net.Listen("tcp", "127.0.0.1:0")
+		if err != nil {
+			panic(err)
+		}
+		verifEP.addr = ln.Addr().String()
+		ln.Close()
+	}
+	return verifEP.addr
+}
+
+func verifEndpointUp(up bool) {
+	addr := verifEndpointAddr()
+	verifEP.mu.Lock()
+	defer verifEP.mu.Unlock()
+	if !up {
+		if verifEP.ln != nil {
+			verifEP.ln.Close()
+			verifEP.ln = nil
+		}
+		return
+	}
+	if verifEP.ln != nil {
+		return
+	}
+	ln, err := net.Listen("tcp", addr)
+	if err != nil {
+		panic(err)
+	}
+	verifEP.ln = ln
+	go func() {
+		for {
+			c, err := ln.Accept()
+			if err != nil {
+				return
+			}
+			nc := &verifNatConn{c: c}
+			verifEP.mu.Lock()
+			verifEP.conns = append(verifEP.conns, nc)
+			verifEP.mu.Unlock()
+			go func() {
+				buf := make([]byte, 4096)
+				for {
+					n, err := c.Read(buf)
+					nc.mu.Lock()
+					nc.log = append(nc.log, buf[:n]...)
+					nc.mu.Unlock()
+					if err != nil {
+						return
+					}
+				}
+			}()
+		}
+	}()
+}
+func verifNumConns() int {
+	verifEP.mu.Lock()
+	defer verifEP.mu.Unlock()
+	return len(verifEP.conns)
+}
+func verifEndpointLog(k int) []byte {
+	verifEP.mu.Lock()
+	defer verifEP.mu.Unlock()
+	if k < 0 || k >= len(verifEP.conns) {
+		return nil
+	}
+	nc := verifEP.conns[k]
+	nc.mu.Lock()
+	defer nc.mu.Unlock()
+	return append([]byte{}, nc.log...)
+}
+func verifEndpointClose(k int) {
+	verifEP.mu.Lock()
+	defer verifEP.mu.Unlock()
+	if k >= 0 && k < len(verifEP.conns) {
+		verifEP.conns[k].c.Close()
+	}
+}
+func verifEndpointStall(k int, on bool) {} // a black-holing peer cannot be forced natively (kernel buffers)
 
 // ---- http model observation (native twins: not implemented; engine-only harnesses)
 func verifHTTPAcked() []byte          { return nil }
@@ -200,3 +293,5 @@ func verifHTTPAttempts() int          { return 0 }
 func verifHTTPFailures() int          { return 0 }
 func verifHTTPMaxFailures(n int)      {}
 func verifHTTPRetriedSameBatch() bool { return true }
+
+func verifStepLimit(n int) {}
